@@ -267,6 +267,11 @@ void sqf::parser::preprocessor::impl_default::instance::replace_skip(::sqf::runt
         if (in_string)
         {
             char c = fileinfo.next();
+            if (c == '\0')
+            { // The body ends inside a string: there is nothing more to skip
+                flag = false;
+                break;
+            }
             if (c == '"')
             {
                 in_string = false;
